@@ -1,2 +1,345 @@
-(** C43 — placeholder, model follows. *)
-From IBC Require Import Lib.Bytes.
+(** C43 — executable model of packet-forward-middleware on top of a compact bank + ICS-20 (v1) model.
+
+    Private to this area (another area models ICS-20 conservation in general).  Conventions:
+    - port is always "transfer"; a hop of a denomination trace is the channel identifier (a numeral);
+    - denominations are structured: trace (list of hops, newest first) and base.  The bank is keyed by the
+      structured denomination: for [denom_safe] tokens the coin denom ("ibc/"+SHA-256 of the path, or the base)
+      determines (trace, base) uniquely and the path string parses back to it (properties C34/C42 — assumed here);
+    - accounts: users, the escrow account of a channel, and the PFM override receiver, which the code derives
+      as address.Hash("packetfowardmiddleware", channel+"/"+sender)[:20] — modelled as an injective constructor;
+    - stores are total functions. sdkmath.Int = Z.
+    Source: modules/apps/packet-forward-middleware/{ibc_middleware.go,keeper/keeper.go},
+            modules/apps/transfer/keeper/relay.go, modules/core/keeper/msg_server.go. *)
+From IBC Require Import Lib.Bytes Lib.CorrLib.
+Local Open Scope Z_scope.
+
+Record Denom := mkD { d_trace : list N; d_base : N }.
+Definition denom_eqb (a b : Denom) : bool := list_eqb N.eqb (d_trace a) (d_trace b) && (d_base a =? d_base b)%N.
+
+(** types.Denom.HasPrefix(port, channel) *)
+Definition has_prefix (d : Denom) (ch : N) : bool :=
+  match d_trace d with h :: _ => (h =? ch)%N | [] => false end.
+Definition drop_hop (d : Denom) : Denom := mkD (tl (d_trace d)) (d_base d).
+Definition add_hop (ch : N) (d : Denom) : Denom := mkD (ch :: d_trace d) (d_base d).
+
+Inductive Acct := AUser (n : N) | AEscrow (ch : N) | AOverride (ch : N) (sender : Acct).
+Fixpoint acct_eqb (a b : Acct) : bool :=
+  match a, b with
+  | AUser n, AUser m => (n =? m)%N
+  | AEscrow c, AEscrow c' => (c =? c')%N
+  | AOverride c s, AOverride c' s' => (c =? c')%N && acct_eqb s s'
+  | _, _ => false
+  end.
+
+(** the "forward" memo: receiver (None = a string that is not a valid address), channel, retries, nested next *)
+Inductive Memo := MNone | MFwd (recv : option Acct) (ch : N) (retries : N) (next : Memo).
+
+Record Packet := mkP {
+  k_src_ch : N; k_dst_ch : N; k_seq : N; k_denom : Denom; k_amt : Z;
+  k_sender : Acct; k_recv : option Acct; k_memo : Memo }.
+
+(** types.InFlightPacket: where the original packet arrived (refund channel, its sequence), retries left *)
+Record InFl := mkI { i_ch : N; i_seq : N; i_retries : Z }.
+
+Record CS := mkCS {
+  bal : Acct -> Denom -> Z;             (* bank balances *)
+  sup : Denom -> Z;                     (* bank supply *)
+  esc : Denom -> Z;                     (* transfer keeper: total escrow per denom *)
+  infl : N -> N -> option InFl;         (* PFM in-flight records, key (channel, sequence) of the forwarded packet *)
+  nseq : N -> N;                        (* next sequence send per channel *)
+  com : N -> N -> option Packet;        (* packet commitments (sent, no terminal event yet) *)
+  rcpt : N -> N -> bool;                (* receipts of received packets (dst channel, sequence) *)
+  ackd : N -> N -> option bool;         (* acknowledgements written for received packets: true = success *)
+  chans : list N }.                     (* open transfer channels of this chain *)
+
+Definition set_bal cs f := mkCS f (sup cs) (esc cs) (infl cs) (nseq cs) (com cs) (rcpt cs) (ackd cs) (chans cs).
+Definition set_sup cs f := mkCS (bal cs) f (esc cs) (infl cs) (nseq cs) (com cs) (rcpt cs) (ackd cs) (chans cs).
+Definition set_esc cs f := mkCS (bal cs) (sup cs) f (infl cs) (nseq cs) (com cs) (rcpt cs) (ackd cs) (chans cs).
+Definition set_infl cs f := mkCS (bal cs) (sup cs) (esc cs) f (nseq cs) (com cs) (rcpt cs) (ackd cs) (chans cs).
+Definition set_nseq cs f := mkCS (bal cs) (sup cs) (esc cs) (infl cs) f (com cs) (rcpt cs) (ackd cs) (chans cs).
+Definition set_com cs f := mkCS (bal cs) (sup cs) (esc cs) (infl cs) (nseq cs) f (rcpt cs) (ackd cs) (chans cs).
+Definition set_rcpt cs f := mkCS (bal cs) (sup cs) (esc cs) (infl cs) (nseq cs) (com cs) f (ackd cs) (chans cs).
+Definition set_ackd cs f := mkCS (bal cs) (sup cs) (esc cs) (infl cs) (nseq cs) (com cs) (rcpt cs) f (chans cs).
+
+Definition add_bal cs (a : Acct) (d : Denom) (x : Z) : CS :=
+  set_bal cs (fun a' d' => if acct_eqb a' a && denom_eqb d' d then bal cs a' d' + x else bal cs a' d').
+Definition add_sup cs (d : Denom) (x : Z) : CS :=
+  set_sup cs (fun d' => if denom_eqb d' d then sup cs d' + x else sup cs d').
+Definition add_esc cs (d : Denom) (x : Z) : CS :=
+  set_esc cs (fun d' => if denom_eqb d' d then esc cs d' + x else esc cs d').
+Definition upd_nn {A} (f : N -> N -> A) (c s : N) (v : A) : N -> N -> A :=
+  fun c' s' => if (c' =? c)%N && (s' =? s)%N then v else f c' s'.
+
+(** bank.SendCoins: fails when the balance is insufficient *)
+Definition send_coins cs (from to : Acct) (d : Denom) (x : Z) : option CS :=
+  if bal cs from d <? x then None else Some (add_bal (add_bal cs from d (- x)) to d x).
+
+(** transfer/keeper/relay.go:SendTransfer — voucher going back through its channel: burn; otherwise escrow *)
+Definition ics_send cs (sender : Acct) (ch : N) (d : Denom) (x : Z) : option CS :=
+  if x <=? 0 then None
+  else if has_prefix d ch then
+    if bal cs sender d <? x then None else Some (add_sup (add_bal cs sender d (- x)) d (- x))
+  else match send_coins cs sender (AEscrow ch) d x with
+       | None => None
+       | Some cs' => Some (add_esc cs' d x)
+       end.
+
+(** the denomination ICS-20 credits on the receiving chain (relay.go:OnRecvPacket) *)
+Definition recv_denom (dst_ch src_ch : N) (d : Denom) : Denom :=
+  if has_prefix d src_ch then drop_hop d else add_hop dst_ch d.
+
+(** packet-forward-middleware/ibc_middleware.go:getDenomForThisChain *)
+Definition pfm_denom (dst_ch src_ch : N) (d : Denom) : Denom :=
+  if has_prefix d src_ch then
+    let d' := mkD (tl (d_trace d)) (d_base d) in
+    match d_trace d' with [] => d' (* native again: denom.Path() *) | _ => d' (* still an IBC denom: IBCDenom() *) end
+  else mkD (dst_ch :: d_trace d) (d_base d).
+
+(** relay.go:OnRecvPacket with an explicit receiver (PFM overrides it) — None = error *)
+Definition ics_recv cs (p : Packet) (r : option Acct) : option CS :=
+  match r with
+  | None => None                                           (* receiver does not decode *)
+  | Some a =>
+      if k_amt p <=? 0 then None
+      else if has_prefix (k_denom p) (k_src_ch p) then
+        let d' := drop_hop (k_denom p) in
+        match send_coins cs (AEscrow (k_dst_ch p)) a d' (k_amt p) with   (* UnescrowCoin *)
+        | None => None
+        | Some cs' => Some (add_esc cs' d' (- k_amt p))
+        end
+      else
+        let d' := add_hop (k_dst_ch p) (k_denom p) in
+        Some (add_bal (add_sup cs d' (k_amt p)) a d' (k_amt p))            (* mint, send to receiver *)
+  end.
+
+(** relay.go:refundPacketTokens *)
+Definition ics_refund cs (p : Packet) : option CS :=
+  if has_prefix (k_denom p) (k_src_ch p) then
+    Some (add_bal (add_sup cs (k_denom p) (k_amt p)) (k_sender p) (k_denom p) (k_amt p))
+  else match send_coins cs (AEscrow (k_src_ch p)) (k_sender p) (k_denom p) (k_amt p) with
+       | None => None
+       | Some cs' => Some (add_esc cs' (k_denom p) (- k_amt p))
+       end.
+
+(** keeper.Transfer (msg server) as PFM and users call it: debit, allocate the sequence, commit the packet *)
+Definition do_transfer cs (dst_ch : N) (sender : Acct) (ch : N) (d : Denom) (x : Z) (recv : option Acct) (memo : Memo)
+  : option (CS * N) :=
+  if negb (existsb (N.eqb ch) (chans cs)) then None
+  else match ics_send cs sender ch d x with
+       | None => None
+       | Some cs1 =>
+           let s := nseq cs1 ch in
+           let p := mkP ch dst_ch s d x sender recv memo in
+           Some (set_com (set_nseq cs1 (fun c => if (c =? ch)%N then N.succ s else nseq cs1 c)) (upd_nn (com cs1) ch s (Some p)), s)
+       end.
+
+(** keeper.go:WriteAcknowledgementForForwardedPacket, the failure part: the three refund branches.
+    [p] is the forwarded packet (source channel = the forward channel), [i] its in-flight record. *)
+Definition refund_forward cs (p : Packet) (i : InFl) : option CS :=
+  let d := k_denom p in
+  let x := k_amt p in
+  if negb (has_prefix d (k_src_ch p)) then
+    if negb (has_prefix d (i_ch i)) then
+      (* escrow of the forward channel -> escrow of the refund channel *)
+      send_coins cs (AEscrow (k_src_ch p)) (AEscrow (i_ch i)) d x
+    else
+      (* burn from the forward channel's escrow; total escrow decreases *)
+      if bal cs (AEscrow (k_src_ch p)) d <? x then None
+      else Some (add_esc (add_sup (add_bal cs (AEscrow (k_src_ch p)) d (- x)) d (- x)) d (- x))
+  else
+    (* the forward burned the voucher: mint it back into the refund channel's escrow; total escrow increases *)
+    Some (add_esc (add_bal (add_sup cs d x) (AEscrow (i_ch i)) d x) d x).
+
+Definition write_ack cs (ch seq : N) (b : bool) : CS := set_ackd cs (upd_nn (ackd cs) ch seq (Some b)).
+Definition del_infl cs (ch seq : N) : CS := set_infl cs (upd_nn (infl cs) ch seq None).
+
+(** peer channel id of a channel of this chain is an input ([dst_of]) *)
+
+(** ibc_middleware.go:OnRecvPacket (PFM above transfer). Returns the new state and the acknowledgement
+    (Some true / Some false / None = async). On an error ack the state is the input state (core discards). *)
+Definition pfm_on_recv (dst_of : N -> N) cs (p : Packet) : CS * option bool :=
+  match k_memo p with
+  | MNone =>
+      match ics_recv cs p (k_recv p) with
+      | Some cs' => (cs', Some true)
+      | None => (cs, Some false)
+      end
+  | MFwd r ch retries next =>
+      let ov := AOverride (k_dst_ch p) (k_sender p) in
+      match ics_recv cs p (Some ov) with                                  (* receiveFunds *)
+      | None => (cs, Some false)
+      | Some cs1 =>
+          let d := pfm_denom (k_dst_ch p) (k_src_ch p) (k_denom p) in
+          match do_transfer cs1 (dst_of ch) ov ch d (k_amt p) r next with  (* ForwardTransferPacket *)
+          | None => (cs, Some false)
+          | Some (cs2, s) =>
+              (set_infl cs2 (upd_nn (infl cs2) ch s (Some (mkI (k_dst_ch p) (k_seq p) (Z.of_N retries)))), None)
+          end
+      end
+  end.
+
+(** WriteAcknowledgementForForwardedPacket *)
+Definition write_forwarded cs (p : Packet) (i : InFl) (ok : bool) : option CS :=
+  if ok then Some (write_ack cs (i_ch i) (i_seq i) true)
+  else match refund_forward cs p i with
+       | None => None
+       | Some cs' => Some (write_ack cs' (i_ch i) (i_seq i) false)
+       end.
+
+(** ibc_middleware.go:OnAcknowledgementPacket — None = the transaction fails *)
+Definition pfm_on_ack cs (p : Packet) (ok : bool) : option CS :=
+  match infl cs (k_src_ch p) (k_seq p) with
+  | Some i => write_forwarded (del_infl cs (k_src_ch p) (k_seq p)) p i ok
+  | None => if ok then Some cs else ics_refund cs p
+  end.
+
+(** ibc_middleware.go:OnTimeoutPacket with keeper.TimeoutShouldRetry / RetryTimeout *)
+Definition pfm_on_timeout (dst_of : N -> N) cs (p : Packet) : option CS :=
+  match infl cs (k_src_ch p) (k_seq p) with
+  | Some i =>
+      let cs1 := del_infl cs (k_src_ch p) (k_seq p) in
+      if i_retries i <=? 0 then write_forwarded cs1 p i false
+      else match ics_refund cs1 p with
+           | None => None
+           | Some cs2 =>
+               match do_transfer cs2 (dst_of (k_src_ch p)) (k_sender p) (k_src_ch p) (k_denom p) (k_amt p) (k_recv p) (k_memo p) with
+               | None => None
+               | Some (cs3, s) =>
+                   Some (set_infl cs3 (upd_nn (infl cs3) (k_src_ch p) s (Some (mkI (i_ch i) (i_seq i) (i_retries i - 1)))))
+               end
+           end
+  | None => ics_refund cs p
+  end.
+
+(** ---------------------------------------------------------------------------------------------
+    Worlds: chains indexed by numerals, channel topology [peer chain channel = (peer chain, peer channel)]. *)
+Definition World := N -> CS.
+Definition Peer := N -> N -> (N * N).
+Definition wupd (w : World) (c : N) (cs : CS) : World := fun c' => if (c' =? c)%N then cs else w c'.
+
+Inductive ROp :=
+| RTransfer (c : N) (sender : Acct) (ch : N) (d : Denom) (amt : Z) (recv : option Acct) (memo : Memo)
+| RRecv (c ch seq : N)      (* c, ch: destination chain and channel *)
+| RAck (c ch seq : N)       (* c, ch: source chain and channel *)
+| RTimeout (c ch seq : N).  (* c, ch: source chain and channel; the relayer proved non-receipt *)
+
+(** outcome classes: 0 ok, 1 error (transaction failed, nothing changed), 2 no-op *)
+Definition rstep (peer : Peer) (w : World) (o : ROp) : World * N :=
+  match o with
+  | RTransfer c sender ch d amt recv memo =>
+      match do_transfer (w c) (snd (peer c ch)) sender ch d amt recv memo with
+      | None => (w, 1%N)
+      | Some (cs, _) => (wupd w c cs, 0%N)
+      end
+  | RRecv c ch seq =>
+      let sc := peer c ch in
+      match com (w (fst sc)) (snd sc) seq with
+      | None => (w, 1%N)
+      | Some p =>
+          if rcpt (w c) ch seq then (w, 2%N)
+          else
+            let cs0 := set_rcpt (w c) (upd_nn (rcpt (w c)) ch seq true) in
+            let r := pfm_on_recv (fun ch' => snd (peer c ch')) cs0 p in
+            (wupd w c (match snd r with Some b => write_ack (fst r) ch seq b | None => fst r end), 0%N)
+      end
+  | RAck c ch seq =>
+      match com (w c) ch seq with
+      | None => (w, 2%N)
+      | Some p =>
+          let dc := peer c ch in
+          match ackd (w (fst dc)) (snd dc) seq with
+          | None => (w, 1%N)
+          | Some ok =>
+              match pfm_on_ack (set_com (w c) (upd_nn (com (w c)) ch seq None)) p ok with
+              | None => (w, 1%N)
+              | Some cs => (wupd w c cs, 0%N)
+              end
+          end
+      end
+  | RTimeout c ch seq =>
+      match com (w c) ch seq with
+      | None => (w, 2%N)
+      | Some p =>
+          let dc := peer c ch in
+          if rcpt (w (fst dc)) (snd dc) seq then (w, 1%N)
+          else match pfm_on_timeout (fun ch' => snd (peer c ch')) (set_com (w c) (upd_nn (com (w c)) ch seq None)) p with
+               | None => (w, 1%N)
+               | Some cs => (wupd w c cs, 0%N)
+               end
+      end
+  end.
+
+Definition rrun (peer : Peer) (w : World) (ops : list ROp) : World := fold_left (fun w o => fst (rstep peer w o)) ops w.
+
+(** ---------------------------------------------------------------------------------------------
+    Relaying one route depth-first.  A hop outcome says how many times the packet of that hop times out before it
+    is delivered ([h_timeouts]); whether delivery succeeds is decided by the receiving chain's own code. *)
+Record HopOut := mkH { h_timeouts : nat }.
+
+Inductive Result := ROk | RFail.
+
+(** [relay hs w c ch seq]: the packet committed on chain [c] under (ch, seq) is relayed according to the outcome
+    of its hop (head of [hs]) and, if it is forwarded further, of the following hops (tail).  Returns the world
+    once the acknowledgement/timeout of that packet has been processed on [c]. *)
+Fixpoint relay (peer : Peer) (hs : list HopOut) (w : World) (c ch seq : N) {struct hs} : World :=
+  match hs with
+  | [] => w
+  | h :: hs' =>
+      (fix attempts (k : nat) (w : World) (seq : N) {struct k} : World :=
+         match k with
+         | S k' =>
+             (* this attempt times out; a retry (if PFM makes one) gets the next sequence of the channel *)
+             let s' := nseq (w c) ch in
+             let w1 := fst (rstep peer w (RTimeout c ch seq)) in
+             if (nseq (w1 c) ch =? s')%N then w1 else attempts k' w1 s'
+         | O =>
+             let d := peer c ch in
+             let w1 := fst (rstep peer w (RRecv (fst d) (snd d) seq)) in
+             match ackd (w1 (fst d)) (snd d) seq with
+             | Some _ => fst (rstep peer w1 (RAck c ch seq))
+             | None =>
+                 (* forwarded: the next packet is the newest commitment of the forward channel named by the memo *)
+                 match com (w c) ch seq with
+                 | Some p =>
+                     match k_memo p with
+                     | MFwd _ fch _ _ =>
+                         let fs := nseq (w (fst d)) fch in
+                         let w2 := relay peer hs' w1 (fst d) fch fs in
+                         fst (rstep peer w2 (RAck c ch seq))
+                     | MNone => w1
+                     end
+                 | None => w1
+                 end
+             end
+         end) (h_timeouts h) w seq
+  end.
+
+(** a whole route: the origin transfer, then the relay of its packet *)
+Definition route_run (peer : Peer) (w : World) (c : N) (sender : Acct) (ch : N) (d : Denom) (amt : Z)
+           (recv : option Acct) (memo : Memo) (hs : list HopOut) : World :=
+  let s := nseq (w c) ch in
+  let r := rstep peer w (RTransfer c sender ch d amt recv memo) in
+  if (snd r =? 0)%N then relay peer hs (fst r) c ch s else fst r.
+
+(** ---------------------------------------------------------------------------------------------
+    getDenomForThisChain at the level of strings, for an arbitrary hash function [H] (SHA-256 in the
+    correspondence): hops are (port, channel) byte strings. *)
+Definition SHop := (bytes * bytes)%type.
+Definition spath (tr : list SHop) (base : bytes) : bytes :=
+  concat (map (fun h => (fst h ++ slash :: snd h ++ [slash])%list) tr) ++ base.
+(** types.Denom.IBCDenom: the base when native, otherwise "ibc/" + upper-case hex of H(path) *)
+Definition s_ibc_denom (H : bytes -> bytes) (tr : list SHop) (base : bytes) : bytes :=
+  match tr with [] => base | _ => (B "ibc/" ++ hex_upper (H (spath tr base)))%list end.
+Definition s_has_prefix (tr : list SHop) (port ch : bytes) : bool :=
+  match tr with h :: _ => bytes_eqb (fst h) port && bytes_eqb (snd h) ch | [] => false end.
+(** ibc_middleware.go:getDenomForThisChain *)
+Definition s_pfm_denom (H : bytes -> bytes) (port ch cport cch : bytes) (tr : list SHop) (base : bytes) : bytes :=
+  if s_has_prefix tr cport cch then
+    match tl tr with
+    | [] => spath [] base                    (* denom.Path() of the unwound native denom *)
+    | tr' => s_ibc_denom H tr' base
+    end
+  else s_ibc_denom H ((port, ch) :: tr) base.
+(** the coin denom transfer/keeper/relay.go:OnRecvPacket credits (voucher or unescrowed token) *)
+Definition s_recv_denom (H : bytes -> bytes) (port ch cport cch : bytes) (tr : list SHop) (base : bytes) : bytes :=
+  if s_has_prefix tr cport cch then s_ibc_denom H (tl tr) base else s_ibc_denom H ((port, ch) :: tr) base.
